@@ -62,6 +62,18 @@ def handle (op : String) (j : Json) : Except String Json := do
   | "abs.tokof" =>
     let c ← cellOfJson (← j.getObjVal? "cell")
     pure (Json.mkObj [("text", jstr (render c)), ("tok", jtok (tokOf c))])
+  | "abs.expect" =>
+    -- expected kern / akern text of an abstract cell, from its abstract description alone
+    let c ← cellOfJson (← j.getObjVal? "cell")
+    let clef : Option Str := match j.getObjVal? "clef" with
+      | .ok (.str s) => some s.toList
+      | _ => none
+    let ak : Json := match clef with
+      | none => Json.null
+      | some txt => match Gkern.createClef txt with
+        | .error _ => Json.null
+        | .ok cl => jexcept jstr (Spec.cellOutAkern cl c)
+    pure (Json.mkObj [("text", jstr (render c)), ("kern", jexcept jstr (Spec.cellOutKern c)), ("akern", ak)])
   | "tok.tokenize" =>
     let e ← encodingOfName (← (← j.getObjVal? "enc").getStr?)
     let cats ← catsOfJson j "cats"
